@@ -514,6 +514,11 @@ def _doc_text(r, arcs_under_tf):
         if r.random() < 0.35:
             return ''
         parts = []
+        if r.random() < 0.12:
+            # transforms that are close to, but not, the identity (a zoom of 1.000005, a turn of 2e-7 degrees): they still move a point
+            # at 1e6 by several units
+            return r.choice(['scale(1.000005)', 'matrix(1.000004 0 0 0.999996 0 0)', 'rotate(0.0002)', 'skewX(0.0003)', 'scale(0.999992 1.000007)', 'translate(0.000004,0)',
+                             'scale(2) scale(0.5000021)', 'rotate(0.00001)'])
         for _ in range(r.randint(1, 2)):
             op = r.choice(['translate', 'scale', 'rotate', 'matrix', 'skewX', 'skewY', 'rotate3', 'translate1', 'scale1'])
             v = lambda: round(r.uniform(-3, 3), 2)
